@@ -326,29 +326,49 @@ Definition mutext_graph : graph :=
 Lemma gfind_mutext : exists s, gfind mutext_graph (find_fuel mutext_graph) [] 0 7 = Some (s, None).
 Proof. eexists. vm_compute. reflexivity. Qed.
 
-(* ---- hasTag has no guard ---- *)
+(* ---- hasTag / TaggedAttribute / walkAttribute (with their visited set): total ---- *)
 
-Definition ranked (bases : nat -> list nat) (user : nat -> option nat) (rk : nat -> nat) : Prop :=
-  forall n, (forall u, user n = Some u -> rk u < rk n) /\ (forall b, In b (bases n) -> rk b < rk n).
-
-Lemma ghastag_terminates has bases user rk : ranked bases user rk ->
-  forall fuel n, rk n < fuel -> ghastag has bases user fuel n <> None.
+Lemma ghastag_terminates has bases user N :
+  (forall n, N <= n -> bases n = [] /\ user n = None) ->
+  forall fuel seen n, unvis N seen < fuel ->
+  exists s r, ghastag has bases user fuel seen n = Some (s, r) /\ incl seen s.
 Proof.
-  intro Hr. induction fuel as [|f IH]; intros n Hlt; [lia|].
-  simpl. destruct (has n); [discriminate|].
-  destruct (Hr n) as [Hu Hb].
-  assert (Hall : forall b, In b (bases n) -> rk b < f) by (intros b Hin; specialize (Hb b Hin); lia).
-  clear Hb. induction (bases n) as [|b r IHr].
-  - destruct (user n) as [u|] eqn:Eu; [|discriminate]. apply IH. specialize (Hu u eq_refl). lia.
-  - assert (Hbf := IH b (Hall b (or_introl eq_refl))).
-    destruct (ghastag has bases user f b) as [[|]|]; try discriminate; [|contradiction].
-    apply IHr. intros b' Hin. apply Hall. right. exact Hin.
+  intro Hoor. induction fuel as [|f IH]; intros seen n Hf; [lia|].
+  simpl. destruct (mem n seen) eqn:Em.
+  - exists seen, false. split; [reflexivity|apply incl_refl].
+  - destruct (has n).
+    + exists (n :: seen), true. split; [reflexivity|]. intros y Hy. right. exact Hy.
+    + destruct (Nat.lt_ge_cases n N) as [Hlt|Hge].
+      * assert (Hc := unvis_cons_lt N n seen Hlt Em).
+        assert (Hgo : forall l s0, incl (n :: seen) s0 ->
+          exists s r, (fix go (s : list nat) (l : list nat) : option (list nat * bool) :=
+             match l with
+             | [] => match user n with Some u => ghastag has bases user f s u | None => Some (s, false) end
+             | b :: r => match ghastag has bases user f s b with
+                         | None => None
+                         | Some (s', true) => Some (s', true)
+                         | Some (s', false) => go s' r
+                         end
+             end) s0 l = Some (s, r) /\ incl s0 s).
+        { induction l as [|b l IHl]; intros s0 Hi0;
+            assert (Hb : unvis N s0 < f) by (assert (H := unvis_incl N (n :: seen) s0 Hi0); lia).
+          - destruct (user n) as [u|].
+            + exact (IH s0 u Hb).
+            + exists s0, false. split; [reflexivity|apply incl_refl].
+          - destruct (IH s0 b Hb) as [s' [r' [Hg Hi']]]. rewrite Hg. destruct r'.
+            + exists s', true. split; [reflexivity|exact Hi'].
+            + destruct (IHl s' (incl_tran Hi0 Hi')) as [s2 [r2 [Hg2 Hi2]]].
+              exists s2, r2. split; [exact Hg2|exact (incl_tran Hi' Hi2)]. }
+        destruct (Hgo (bases n) (n :: seen) (incl_refl _)) as [s [r [Hg Hi]]].
+        exists s, r. split; [exact Hg|]. intros y Hy. apply Hi. right. exact Hy.
+      * destruct (Hoor n Hge) as [Hb Hu]. rewrite Hb, Hu.
+        exists (n :: seen), false. split; [reflexivity|]. intros y Hy. right. exact Hy.
 Qed.
 
-(* a type that extends itself *)
-Lemma ghastag_diverges_selfext :
-  forall fuel, ghastag (fun _ => false) (fun _ => [0]) (fun _ => None) fuel 0 = None.
-Proof. induction fuel as [|f IH]; [reflexivity|]. simpl. rewrite IH. reflexivity. Qed.
+(* a type that extends itself: the answer is "no", at once *)
+Lemma ghastag_selfext :
+  ghastag (fun _ => false) (fun n => if Nat.eqb n 0 then [0] else []) (fun _ => None) 2 [] 0 = Some ([0], false).
+Proof. vm_compute. reflexivity. Qed.
 
 (* ---------------------------------------------------------------------- *)
 (* Part 1: accepted designs have no dangling checked reference            *)
